@@ -107,7 +107,7 @@ func observeLayout(w *world, v val, lv *lisp.LVal, out map[int]layout, depth int
 		if lv.Type != lisp.LSExpr {
 			return
 		}
-		out[v.n] = layout{ptr: dataOfCells(lv.Cells), ln: len(lv.Cells), cp: cap(lv.Cells), esz: cellSize}
+		out[v.n] = layout{ptr: dataOfCells(lv.Cells), ln: len(lv.Cells), cp: cap(lv.Cells), esz: cellSize, ident: identOf(lv)}
 		cs := w.cells(o)
 		if len(cs) != len(lv.Cells) {
 			return
@@ -120,7 +120,7 @@ func observeLayout(w *world, v val, lv *lisp.LVal, out map[int]layout, depth int
 			return
 		}
 		rc := lv.Cells[1].Cells
-		out[v.n] = layout{ptr: dataOfCells(rc), ln: len(rc), cp: cap(rc), esz: cellSize}
+		out[v.n] = layout{ptr: dataOfCells(rc), ln: len(rc), cp: cap(rc), esz: cellSize, ident: identOf(lv)}
 		cs := w.cells(o)
 		if len(cs) != len(rc) {
 			return
@@ -133,11 +133,12 @@ func observeLayout(w *world, v val, lv *lisp.LVal, out map[int]layout, depth int
 			return
 		}
 		b := lv.Bytes()
-		out[v.n] = layout{ptr: dataOfBytes(b), ln: len(b), cp: cap(b), esz: 1}
+		out[v.n] = layout{ptr: dataOfBytes(b), ln: len(b), cp: cap(b), esz: 1, ident: identOf(lv)}
 	case kMap:
 		if lv.Type != lisp.LSortMap {
 			return
 		}
+		out[v.n] = layout{esz: 1, ident: identOf(lv)}
 		for _, e := range o.ents {
 			if e.v.t == tRef {
 				x, ok := lv.Map().Get(lisp.String(e.name))
@@ -492,7 +493,7 @@ func bfs(r *core.Run, label string, al alpha, depth int) bfsStats {
 				if len(base.worlds) == 0 {
 					return // cannot happen: states with a hard mismatch are never enqueued
 				}
-				alphas[i] = alphabet(base.worlds[0], al)
+				alphas[i] = enumerate(base.worlds[0], al)
 				descs[i] = make([]string, len(alphas[i]))
 				for j, op := range alphas[i] {
 					descs[i][j] = describeOperand(base.worlds[0], op)
@@ -586,6 +587,17 @@ func bfs(r *core.Run, label string, al alpha, depth int) bfsStats {
 	return st
 }
 
+// enumerate dispatches on the alphabet level (3 = the no-op family).
+func enumerate(w *world, al alpha) []Op {
+	if al.level == 3 {
+		if len(w.vars) >= al.maxVars {
+			return nil
+		}
+		return alphabetNoop(w)
+	}
+	return alphabet(w, al)
+}
+
 func srcOf(h []Op) []string {
 	// the statements as the checker issues them (error-expected operations bind nothing)
 	return check(h).src
@@ -606,11 +618,13 @@ func run(r *core.Run) {
 			{"full-alphabet", alpha{level: 2, maxVars: 6}, 3},
 			{"mid-alphabet", alpha{level: 1, maxVars: 6}, 4},
 			{"core-alphabet", alpha{level: 0, maxVars: 6}, 5},
+			{"noop-family", alpha{level: 3, maxVars: 6}, 4},
 		}
 	} else {
 		passes = []pass{
 			{"full-alphabet", alpha{level: 2, maxVars: 6}, 3},
 			{"core-alphabet", alpha{level: 0, maxVars: 6}, 4},
+			{"noop-family", alpha{level: 3, maxVars: 6}, 3},
 		}
 	}
 	r.Rule("a state is non-trivial when its heap contains sharing: two distinct live sequence values whose windows onto one backing " +
@@ -623,6 +637,13 @@ func run(r *core.Run) {
 	r.Assume("UNSPECIFIED: which spelling a map key shows after it is written again in the other spelling (lang.md: presentation only); either is accepted, then tracked")
 	r.Assume("a quoted program literal is never modified: stable-sort returns a sorted fresh list, (slice 'vector lit ..) and (append 'vector lit ..) copy " +
 		"(stable-sort docstring, lisp/seal.go); docs/lang.md's 'Sharing' section still describes the older in-place edit of the literal and is not used as the oracle")
+	r.Assume("model rule for every non-mutating operation, whatever its arguments (including the shapes on which it has nothing to do): the result shares no mutable " +
+		"storage and no identity with any value that existed before, unless documented as a view (slice, cdr, rest) or documented to hand back an existing value " +
+		"(a name, nth/get of a stored container, to-bytes of bytes, stable-sort's return value); the noop-family pass builds <shape>;<non-mutating op>;<in-place op>+ " +
+		"and applies every in-place operation to the result and, separately, to the source")
+	r.Assume("strings are outside the alphabet (to-string/format-string of a string): elps strings are immutable, no in-place operation exists, so sharing is unobservable")
+	r.Assume("the canonical state also carries the IDENTITY of the real mutable object behind every container (cell holder, byte box, Go map), so a history whose " +
+		"'fresh' result is really its argument is never merged with an honest history that reaches the same model heap")
 	r.Assume("containers are never stored into themselves (cyclic values print with a #<cycle> marker; another property's subject)")
 	r.Assume("the observed layout of the real slices (which allocation, offset, spare capacity) refines the canonical state only; it is never part of the oracle")
 	var totalS, totalT int64
